@@ -275,6 +275,11 @@ class Compiler:
                 if index is None:
                     c_expr = self._compile(column)
 
+                    # Check for mixed aggregates and non-aggregates.
+                    columns, aggregates = get_columns_and_aggregates(c_expr)
+                    if columns and aggregates:
+                        raise CompilationError('mixed aggregates and non-aggregates are not allowed')
+
                     # Attempt to reconcile the expression with one of the existing
                     # target expressions.
                     try:
